@@ -38,6 +38,22 @@ package keeper
 //@   loop 0 invariant forall j int :: 0 <= j && j < $i ==> addrOK(1, params.BridgeExecutors[j]) && addrs[j] == addrBytes(1, params.BridgeExecutors[j])
 //@   assigns \nothing
 
+// accessors behind the keeper interfaces of the ante handlers and lanes (C20) and of the hooks
+//@ func (Keeper) GetParams
+//@   ensures err == nil <==> Params != None                                                                                    // A-STORE
+//@   ensures err == nil ==> params == val(Params)                                                                             // C20,C12: params_read_from_state
+//@   assigns \nothing
+
+//@ func (Keeper) FeeWhitelist
+//@   ensures err == nil <==> Params != None
+//@   ensures err == nil ==> ret0 == val(Params).FeeWhitelist                                                                  // C20: whitelist_is_the_on_chain_one
+//@   assigns \nothing
+
+//@ func (Keeper) MinGasPrices
+//@   ensures err == nil <==> Params != None
+//@   ensures err == nil ==> ret0 == val(Params).MinGasPrices                                                                  // C20: chain_floor_is_the_on_chain_one
+//@   assigns \nothing
+
 //@ func (MsgServer) checkBridgeExecutorPermission
 //@   let ex := val(Params).BridgeExecutors
 //@   ensures err == nil ==> Params != None && addrOK(1, sender)
@@ -320,6 +336,11 @@ package keeper
 
 //@ func (HostValidatorStore) GetPubKeyByConsAddr
 //@   ensures err == nil ==> validators[consAddr] != None && ret0 == cmtConsPublicKey(val(validators[consAddr]))               // C15: key_of_the_recorded_validator
+//@   assigns \nothing
+
+//@ func (HostValidatorStore) ValidatorByConsAddr
+//@   opt inline
+//@   ensures err == nil <==> validators[addr] != None                                                                           // C15: unknown_validator_is_not_found
 //@   assigns \nothing
 
 //@ func (HostValidatorStore) UpdateValidators
